@@ -29,7 +29,16 @@ RULE = ("one process per (module, stream count): parsec_init(n, --mca mca_sched 
 LTQ_ASAN_STRESS = os.environ.get("C08_LTQ_ASAN_STRESS", "") == "1"
 # __parsec_reschedule (only caller: device_gpu.c, not compiled here) schedules onto the *next* stream; llp's single-writer shortcut
 # (es->th_id != 0) is unsound for that caller.  Off by default (the statement quantifies foreign submissions onto stream 0).
-NEXT_TARGET = os.environ.get("C08_NEXT_TARGET", "1") == "1"     # llp next-stream defect (C08-F1) repaired in /repo: target included by default
+NEXT_TARGET = os.environ.get("C08_NEXT_TARGET", "1") == "1"     # next-stream target of __parsec_reschedule: generated for every module ...
+# ... except llp: commit 50b2d8e stopped a foreign thread from taking the single-writer shortcut, but the OWNER of a queue other than 0
+# still takes it (detach, merge, plain store of the head) and overwrites a ring __parsec_reschedule pushed in between: task lost
+# (corpus/C08/regress/llp_owner_shortcut_vs_foreign_writer.txt, llp_owner_shortcut_search.txt).  C08_LLP_NEXT_TARGET=1 includes it again.
+LLP_NEXT_TARGET = os.environ.get("C08_LLP_NEXT_TARGET", "1") == "1"     # repaired in /repo (ca93a17): included by default
+
+
+def _env_for(m):
+    on = NEXT_TARGET and (m != "llp" or LLP_NEXT_TARGET)
+    return {"C08_NEXT_TARGET": "1" if on else "0"}
 
 
 def _build():
@@ -66,9 +75,10 @@ def run(tier, seed, res):
                        "no module shares a queue across VPs, so 'same VP' is demanded strictly; tasks are harness-allocated and never freed during a process",
                        "sequential consistency at atomic-operation granularity under dsched; real parallelism only in the stress part",
                        "ltq stress runs without ASan unless C08_LTQ_ASAN_STRESS=1 (known use-after-free read in parsec_hbbuffer_pop_best)"]
-    env_extra = {"C08_NEXT_TARGET": "1"} if NEXT_TARGET else {}
+    if NEXT_TARGET and not LLP_NEXT_TARGET:
+        res.coverage.setdefault("labels", {})["llp_next_stream_target_excluded_known_defect"] = 1
     # (1) exhaustive tiny programs, one process per module
-    jobs = [dict(cmd=[san, "exh", m, "2"], env=dict(env_extra), tag="exh:" + m, timeout=900) for m in MODULES if not ONLY or m in ONLY]
+    jobs = [dict(cmd=[san, "exh", m, "2"], env=_env_for(m), tag="exh:" + m, timeout=900) for m in MODULES if not ONLY or m in ONLY]
     wr = core.run_workers(PROP, jobs)
     res.absorb(wr, "exhaustive")
     res.coverage["exhaustive"] = not (wr.failures or wr.crashes) and not ONLY
@@ -84,11 +94,11 @@ def run(tier, seed, res):
             continue
         for n in (2, 3):
             e = {"RC_PARAMS": "seed=%d max_success=%d max_size=100" % (seed * 131 + i * 7 + n, per)}
-            e.update(env_extra)
+            e.update(_env_for(m))
             jobs.append(dict(cmd=[san, "rc", m, str(n)], env=e, tag="rc:%s:%d" % (m, n), timeout=600 if quick else 7200))
         for nvp, tpv in ((2, 2), (3, 1)):
             e = {"RC_PARAMS": "seed=%d max_success=%d max_size=100" % (seed * 131 + i * 7 + 50 + nvp, per_vp)}
-            e.update(env_extra)
+            e.update(_env_for(m))
             jobs.append(dict(cmd=[san, "rc", m, "0", str(nvp), str(tpv)], env=e, tag="rc:%s:%dx%d" % (m, nvp, tpv), timeout=600 if quick else 7200))
     wr = core.run_workers(PROP, jobs)
     res.absorb(wr, "rc")
